@@ -42,9 +42,10 @@ Lemma le_decode_inj (a b : list N) :
   length a = length b -> Forall (fun x => x < 256) a -> Forall (fun x => x < 256) b ->
   le_decode a = le_decode b -> a = b.
 Proof.
-  revert b. induction a as [|x a IH]; intros [|y b] Hl Ha Hb He; cbn in *; try discriminate; [reflexivity|].
+  revert b. induction a as [|x a IH]; intros [|y b] Hl Ha Hb He; cbn [le_decode length] in *; try discriminate; [reflexivity|].
   inversion Ha as [|? ? Hx Ha']; subst. inversion Hb as [|? ? Hy Hb']; subst.
-  assert (x = y /\ le_decode a = le_decode b) as [-> E] by lia.
+  assert (x = y /\ le_decode a = le_decode b) as [-> E].
+  { remember (le_decode a) as da. remember (le_decode b) as db. clear - Hx Hy He. lia. }
   f_equal. apply IH; auto.
 Qed.
 
@@ -73,7 +74,7 @@ Qed.
 Lemma take_none l k : take l k = None <-> nlen l < k.
 Proof.
   revert k. induction l as [|x l IH]; intro k; cbn [take].
-  - unfold nlen; cbn. destruct (N.eqb_spec k 0); split; intro H; try discriminate; lia.
+  - unfold nlen; cbn. destruct (N.eqb_spec k 0); split; intro H; try discriminate; try reflexivity; try lia; exfalso; lia.
   - rewrite nlen_cons. destruct (N.eqb_spec k 0) as [->|Hk].
     + split; intro H; [discriminate|lia].
     + destruct (take l (k - 1)) as [[a b]|] eqn:E.
